@@ -6,6 +6,7 @@ import (
 	"go/constant"
 	"go/token"
 	"go/types"
+	"os"
 	"sort"
 	"strings"
 )
@@ -44,6 +45,69 @@ type MayPanic struct {
 	Min   int
 }
 
+// nonNil looks a variable up in the frozen NonNil table: by name
+// ("func:var"), or by origin ("func:=callee": a variable all of whose
+// definitions are the first result of a call to callee — independent of how
+// the variable is called).
+func (mp MayPanic) nonNil(c *Ctx, fname string, o types.Object) (string, bool) {
+	if o == nil {
+		return "", false
+	}
+	if why, ok := mp.NonNil[fname+":"+o.Name()]; ok {
+		return why, true
+	}
+	root := c.F
+	for root.Encl != nil {
+		root = root.Encl
+	}
+	for i := 0; i < root.Sig().Params().Len(); i++ {
+		if root.Sig().Params().At(i) == o {
+			if why, ok := mp.NonNil[fmt.Sprintf("%s:#%d", fname, i)]; ok {
+				return why, true
+			}
+		}
+	}
+	prefix := fname + ":="
+	for k, why := range mp.NonNil {
+		if !strings.HasPrefix(k, prefix) {
+			continue
+		}
+		callee := strings.TrimPrefix(k, prefix)
+		defs := LiveDefs(c.DefsOf(o))
+		all := len(defs) > 0
+		for _, d := range defs {
+			call, ok := ast.Unparen(d.Rhs).(*ast.CallExpr)
+			if d.Rhs == nil || !ok || d.Idx != 0 || ShortName(Callee(c.Info, call)) != callee {
+				all = false
+			}
+		}
+		if all {
+			return why, true
+		}
+	}
+	return "", false
+}
+
+// indexOK looks a site up in the frozen table, by its source text
+// ("func:expr") or by its canonical form ("func:~canon", independent of the
+// names of locals, parameters and the receiver).
+func (mp MayPanic) indexOK(c *Ctx, f *FuncInfo, e ast.Node) (string, bool) {
+	if why, ok := mp.IndexOK[f.Name+":"+ExprStr(e)]; ok {
+		if os.Getenv("VERIF_CANON_SITES") != "" {
+			if x, isExpr := e.(ast.Expr); isExpr {
+				fmt.Fprintf(os.Stderr, "CANON %s:~%s\n", f.Name, CanonExpr(c, x))
+			}
+		}
+		return why, true
+	}
+	if x, isExpr := e.(ast.Expr); isExpr {
+		if why, ok := mp.IndexOK[f.Name+":~"+CanonExpr(c, x)]; ok {
+			return why, true
+		}
+	}
+	return "", false
+}
+
 func (mp MayPanic) trusted(name string) (string, bool) {
 	if why, ok := mp.Trusted[name]; ok {
 		return why, true
@@ -57,6 +121,7 @@ func (mp MayPanic) trusted(name string) (string, bool) {
 }
 
 func (mp MayPanic) Check(r *Run) {
+	mayPanicPending = nil
 	inScope := map[string]bool{}
 	for _, f := range mp.Funcs {
 		inScope[f] = true
@@ -88,10 +153,23 @@ func (mp MayPanic) Check(r *Run) {
 			total += mp.checkFunc(r, cl, inScope)
 		}
 	}
+	for len(mayPanicPending) > 0 {
+		h := mayPanicPending[0]
+		mayPanicPending = mayPanicPending[1:]
+		r.Touch(h)
+		if rec, ok := mp.Recovered[h.Name]; !ok || rec == "" {
+			// a helper only called from recovered functions runs under their frame
+			_ = rec
+		}
+		total += mp.checkFunc(r, h, inScope)
+	}
 	if total < mp.Min {
 		r.Fail("may-panic sites", "-", fmt.Sprintf("expected ≥%d sites in scope, found %d", mp.Min, total))
 	}
 }
+
+// mayPanicPending: unnamed helpers met while a scope is analysed, to be analysed with it.
+var mayPanicPending []*FuncInfo
 
 // lenGuarded: is there, on every path to node n, a passed test len(X) > K or len(X) >= K' that makes X[len(X)-K:] safe?
 func lenGuarded(fl *Flow, n *GNode, x ast.Expr, k int64) bool {
@@ -216,7 +294,7 @@ func (mp MayPanic) checkFunc(r *Run, f *FuncInfo, inScope map[string]bool) int {
 		n++
 		occ[kind]++
 		label := fmt.Sprintf("%s: %s #%d `%s` cannot panic", f.Name, kind, occ[kind], ExprStr(x))
-		if fz, isFz := mp.IndexOK[f.Name+":"+ExprStr(x)]; !ok && isFz {
+		if fz, isFz := mp.indexOK(c, f, x); !ok && isFz {
 			ok, why = true, "frozen: "+fz
 			r.Exception(label, fz)
 		}
@@ -236,7 +314,7 @@ func (mp MayPanic) checkFunc(r *Run, f *FuncInfo, inScope map[string]bool) int {
 		if o == nil {
 			return false, ""
 		}
-		if why, ok := mp.NonNil[f.Name+":"+o.Name()]; ok {
+		if why, ok := mp.nonNil(c, f.Name, o); ok {
 			return true, "frozen: " + why
 		}
 		if rv := f.Recv(); rv != nil && rv == o {
@@ -336,7 +414,7 @@ func (mp MayPanic) checkFunc(r *Run, f *FuncInfo, inScope map[string]bool) int {
 				}
 				report("index", e, false, "array index not a constant inside the bounds")
 			default:
-				if why, ok := mp.IndexOK[f.Name+":"+ExprStr(e)]; ok {
+				if why, ok := mp.indexOK(c, f, e); ok {
 					report("index", e, true, "frozen: "+why)
 				} else if ok, why := indexGuarded(r, fl, e); ok {
 					report("index", e, true, why)
@@ -356,7 +434,7 @@ func (mp MayPanic) checkFunc(r *Run, f *FuncInfo, inScope map[string]bool) int {
 			if vs, ok := par.(*ast.ValueSpec); ok && len(vs.Names) == 2 {
 				return true
 			}
-			if why, ok := mp.IndexOK[f.Name+":"+ExprStr(e)]; ok {
+			if why, ok := mp.indexOK(c, f, e); ok {
 				report("type assertion", e, true, "frozen: "+why)
 				return true
 			}
@@ -445,7 +523,7 @@ func (mp MayPanic) checkFunc(r *Run, f *FuncInfo, inScope map[string]bool) int {
 						}
 					}
 				}
-				if why, ok := mp.IndexOK[f.Name+":"+ExprStr(e)]; ok {
+				if why, ok := mp.indexOK(c, f, e); ok {
 					report("call", e, true, "frozen: "+why)
 					return true
 				}
@@ -465,6 +543,11 @@ func (mp MayPanic) checkFunc(r *Run, f *FuncInfo, inScope map[string]bool) int {
 				return mp.TrustFn(r, fn)
 			}(); ok {
 				report("call", e, true, "trusted: "+why)
+			} else if h := r.W.FuncOf(fn); h != nil && h.Pkg == f.Pkg && h.Body() != nil && !mentioned[name] {
+				// an unnamed helper of the package (typically extracted from a function in
+				// scope): it is analysed as part of the scope instead of being trusted
+				inScope[name] = true
+				mayPanicPending = append(mayPanicPending, h)
 			} else {
 				report("call", e, false, fmt.Sprintf("%s is outside the analysed set and not in the trusted table", name))
 			}
